@@ -204,33 +204,45 @@ Theorem c11_write_frame_lists_changed_path : forall (root : str) (f : fs) (raw :
 Proof. exact write_frame_lists_changed. Qed.
 Print Assumptions c11_write_frame_lists_changed_path.
 
-(* every mutating tool call.  Partial: a `write` that FAILS is excluded by [write_ok] (its frame lists the file of
-   the auto checkpoint, which is the one file it can have changed by the theorem above; the case "write failed
-   after removing the old file AND the auto checkpoint failed" is not excluded by proof).  A frame without a list
-   belongs to a shell command or to a call that changed nothing *)
-Definition c11_frame_lists_changed_paths_full : Prop := forall (root : str) (f : fs) (c : call) (f' : fs) (fr : option (list str)),
-  fs_wf f -> CheckpointProofs.sane f -> tmp_free f c ->
+(* every mutating tool call, whatever its outcome (a write that fails lists the file of its auto checkpoint, which
+   is the one file it can have changed; when there is no checkpoint either - argument refused, or the path is a
+   directory - nothing changed).  [is_absolute root]: the engine's workspace root.  A frame without a list belongs
+   to a shell command or to a call that changed nothing *)
+Theorem c11_frame_lists_changed_paths : forall (root : str) (f : fs) (c : call) (f' : fs) (fr : option (list str)),
+  is_absolute root = true -> fs_wf f -> CheckpointProofs.sane f -> tmp_free f c ->
   run_call root f c = (f', fr) ->
   match fr with
   | Some l => forall q, file_at f' q <> file_at f q -> listed l q
   | None => is_shell c = true \/ forall q, file_at f' q = file_at f q
   end.
-
-Theorem c11_frame_lists_changed_paths_partial : forall (root : str) (f : fs) (c : call) (f' : fs) (fr : option (list str)),
-  fs_wf f -> CheckpointProofs.sane f -> tmp_free f c -> write_ok f c = true ->
-  run_call root f c = (f', fr) ->
-  match fr with
-  | Some l => forall q, file_at f' q <> file_at f q -> listed l q
-  | None => is_shell c = true \/ forall q, file_at f' q = file_at f q
-  end.
-Proof. exact frame_lists_changed_paths. Qed.
-Print Assumptions c11_frame_lists_changed_paths_partial.
+Proof. exact frame_lists_changed_paths_full. Qed.
+Print Assumptions c11_frame_lists_changed_paths.
 
 (* a shell command's frame carries no list, whatever the command did to the workspace (the property's "listing
    the files it changed" is not delivered for bash / shell: stated limitation, see props/C11.json) *)
 Theorem c11_shell_frame_has_no_list : forall (root : str) (f after : fs), run_call root f (CShell after) = (after, None).
 Proof. exact shell_frame_has_no_list. Qed.
 Print Assumptions c11_shell_frame_has_no_list.
+
+(* tie T1 (tools/gen/sidefx.py -> Gen/SideFx.v, regenerated on every run): which paths each arm of
+   Workspace::apply_patch pushes to `changed_files` and under which condition, the sort + dedup, the artifacts of the
+   two tools, the shape of summarize_continuity_tool_side_effects.  Every source that passes report_wf reports what
+   the model reports; the source as it is passes; the shape "a moved file is reported under its new name only" is
+   rejected and is exactly the refuted MvTargetOnly variant *)
+From RipV Require Import Gen.SideFx.
+Theorem c11_reported_as_built : forall (c : report_cfg) (ops : list op),
+  report_wf c = true -> reported_by c ops = changed_files ops.
+Proof. exact reported_as_built. Qed.
+Print Assumptions c11_reported_as_built.
+
+Theorem c11_generated_report_wf : gen_ok_sidefx = true /\ report_wf gen_report = true.
+Proof. exact (conj gen_sidefx_found gen_sidefx_wf). Qed.
+Print Assumptions c11_generated_report_wf.
+
+Theorem c11_report_target_only_rejected :
+  report_wf report_target_only = false /\ forall ops, reported_by report_target_only ops = reported MvTargetOnly ops.
+Proof. exact report_target_only_rejected. Qed.
+Print Assumptions c11_report_target_only_rejected.
 
 Require Import Coq.Strings.String.
 (* non-vacuity: a rename on a well-formed workspace — update a.txt, move it to n.txt: both names listed *)
